@@ -597,24 +597,48 @@ def finalise_under_lock(flow, path):
                 if len(dec) != 1:
                     return False
                 k, d = dec[0]
-                where = d
+                # where the state of the pending set was actually read: the locals of the test that were computed from it,
+                # the calls on it (len(…)) inside the literal, or else the test itself
+                where = []
                 t = d.node.test if isinstance(d.node, (ast.If, ast.IfExp, ast.While)) else None
-                while isinstance(t, ast.UnaryOp) and isinstance(t.op, ast.Not):
-                    t = t.operand
-                if isinstance(t, ast.Name):
-                    binds = [x for x in events[:k] if x.kind == 'bind' and x.a == t.id]
-                    if not binds:
+                for nm in ({n.id for n in ast.walk(t) if isinstance(n, ast.Name)} if t is not None else set()):
+                    binds = [x for x in events[:k] if x.kind == 'bind' and x.a == nm]
+                    if binds and F.mentions(binds[-1].b, pending):
+                        where.append(binds[-1])
+                for tcall in F.subterms(d.a):
+                    if tcall[0] == 'call' and F.sym_uid(tcall) is not None and F.mentions(tcall, pending):
+                        where += [x for x in events[:k] if x.kind == 'call' and F.sym_uid(x.a) == F.sym_uid(tcall)]
+                if not where:
+                    where = [d]
+                for w in where:
+                    if events.index(w) < j or locks[-1] not in w.ctx:
                         return False
-                    where = binds[-1]
-                    if events.index(where) < j:
-                        return False
-                if locks[-1] not in where.ctx:
-                    return False
                 seen += 1
     return seen > 0
 
 
 # ---- snapshot: files without any chunk
+def membership(q, k, d):
+    """True / False / None: this path knows that key k is / is not in dict d (membership test, d.get(k) is None,
+    d[k] evaluated with or without KeyError)"""
+    k, sd = F.strip(k), F.strip(d)
+    for c, p in F.known(q.lits()):
+        if c == ('cmp', 'in', k, sd):
+            return p
+        if c[0] == 'cmp' and c[1] == 'is' and ('const', None) in (c[2], c[3]):
+            other = c[3] if c[2] == ('const', None) else c[2]
+            if other[0] == 'call' and other[2] == ('attr', sd, 'get') and other[3] == (k,):
+                return not p
+    for i, e in enumerate(q.events):
+        if e.kind == 'raised' and e.b is not None and F.contains(F.strip(e.b), lambda t: t == ('sub', sd, k)) \
+                and i + 1 < len(q.events) and q.events[i + 1].kind == 'except' \
+                and q.events[i + 1].a is not None and 'KeyError' in F.show(q.events[i + 1].a):
+            return False
+        if e.kind in ('bind', 'eval') and F.strip(e.b if e.kind == 'bind' else e.a) == ('sub', sd, k):
+            return True
+    return None
+
+
 def _chunkless_record(k, v, holder):
     """k == <file>.path and v == {'path': k, 'chunks': [], 'digest': <file>.digest, 'metadata': <file>.metadata} with <file>
     derived from `holder` (the loop element)"""
@@ -659,47 +683,38 @@ def records_chunkless(path):
         it = F.strip(unwrap_iter(L.iter))
         if not (it[0] == 'attr' and it[2] == 'files'):
             continue
-        d = None
-        stored = 0
+        if any(q.status not in ('run', 'continue') for q in L.paths):
+            continue
+        d = key = None
         ok = True
+        quiet = []
         for q in L.paths:
-            if q.status not in ('run', 'continue'):
-                ok = False
-                break
-            lits = {}
-            for l, pol in q.lits():
-                c, p = F.canon_lit(l, pol)
-                if c[0] == 'cmp' and c[1] == 'in':
-                    lits[(c[2], c[3])] = p
             sts = [x for x in q.events if x.kind == 'store' and x.a[0] == 'sub' and F.sym_uid(x.a[1]) is not None]
             sdf = [x for x in q.events if x.kind == 'call' and x.a[0] == 'call' and x.a[2][0] == 'attr' and x.a[2][2] == 'setdefault'
                    and len(x.a[3]) == 2 and F.sym_uid(x.a[2][1]) is not None]
             cands = [(x.a[1], x.a[2], x.b, False) for x in sts] + [(x.a[2][1], x.a[3][0], x.a[3][1], True) for x in sdf]
+            if not cands:
+                quiet.append(q)
+                continue
             if len(cands) > 1:
                 ok = False
                 break
-            if not cands:
-                # nothing recorded on this path: it must know that the file already has an entry
-                if not any(p for p in lits.values()):
-                    ok = False
-                    break
-                continue
             D, K, V, is_sd = cands[0]
-            k = F.strip(K)
             if not _chunkless_record(K, V, ('elem', L.uid)):
                 ok = False
                 break
-            member = lits.get((k, F.strip(D)))
-            if not is_sd and member is not False:
+            # recorded only for files that have no entry yet (setdefault does that by itself)
+            if not is_sd and membership(q, K, D) is not False:
                 ok = False
                 break
-            if d is None:
-                d = D
-            elif not F.same(d, D):
+            if d is not None and not (F.same(d, D) and key == F.strip(K)):
                 ok = False
                 break
-            stored += 1
-        if not ok or not stored or d is None:
+            d, key = D, F.strip(K)
+        if not ok or d is None:
+            continue
+        # an iteration that records nothing must know that the file already has an entry
+        if any(membership(q, key, d) is not True for q in quiet):
             continue
         # the dict is what the snapshot lists afterwards
         if _listed_afterwards(path.events[i + 1:], F.sym_uid(d)):
@@ -713,7 +728,9 @@ def _pad_len(p, caps=None):
     p = F.strip(p)
     ln = ('bin', '-', ('attr', F.Cap('f'), 'stream_end'), ('attr', F.Cap('f'), 'stream_start'))
     for pat in (('bin', '%', ('un', '-', ln), F.Cap('a')),
-                ('bin', '%', ('bin', '-', F.Cap('a'), ('bin', '%', ln, F.Cap('a'))), F.Cap('a'))):
+                ('bin', '%', ('bin', '-', F.Cap('a'), ('bin', '%', ln, F.Cap('a'))), F.Cap('a')),
+                # round the length up to a multiple, minus the length: -(-len // a) * a - len
+                ('bin', '-', ('bin', '*', ('un', '-', ('bin', '//', ('un', '-', ln), F.Cap('a'))), F.Cap('a')), ln)):
         c = F.match(p, pat)
         if c is not None:
             return c['f'], c['a']
@@ -798,6 +815,8 @@ def padding_shape(flow, path):
 def _divisor(s):
     """s == max(rate_limit // (concurrent * N), 1) (any operand order; a // b // c accepted): N, else None"""
     s = F.strip(s)
+    if s[0] == 'bool' and s[1] == 'or' and len(s[2]) == 2 and F.is_const(s[2][1], 1):
+        s = ('call', 0, ('name', 'max'), s[2], ())        # n or 1 == max(n, 1) for n >= 0
     if not (s[0] == 'call' and s[2] == ('name', 'max') and len(s[3]) == 2 and not s[4]):
         return None
     a, b = s[3]
